@@ -39,6 +39,10 @@ structure SpecSt where
   createdDirs : List Path := []
   invLog : List Inv := []          -- newest first
   obligation : Bool := false       -- the program broke the "no output is an ancestor of another" rule
+  /-- injected faults (C14): the setup of `build_file` for these targets / of `subbuild` for these keys
+      fails once with an OSError of the operating system -/
+  failFiles : List Path := []
+  failSubs : List H := []
 deriving Inhabited
 
 namespace Spec
@@ -83,6 +87,7 @@ def bfSetup (s : SpecSt) (path : Path) : Except Exc (SpecSt × List Path) :=
   else match dirsToMake (visible s) s.cacheFile path.dropLast with
     | .error e => .error (.os e)
     | .ok ds =>
+      if s.failFiles.contains path then .error (.os .other) else
       let fs1 := mkdirs s.fs ds
       let fs2 := if fs1.isFile path then fs1.erase path else fs1
       -- the documented obligation concerns outputs: targets that are being built or were built
@@ -124,6 +129,8 @@ def run : Prog → Option Path → SpecSt → CallRes × SpecSt × List CallNode
   | .buildFile path _ fname args kwargs body k, t, s =>
     match bfSetup s path with
     | .error e =>
+      -- an injected fault fires once
+      let s := if e = .os .other then { s with failFiles := s.failFiles.erase path } else s
       let (r, s', tr) := run (k (.error e)) t s
       (r, s', .mk fname (some path) args kwargs ("setup:" ++ e.cls) [] :: tr)
     | .ok (s1, made) =>
@@ -137,6 +144,10 @@ def run : Prog → Option Path → SpecSt → CallRes × SpecSt × List CallNode
     if s.claimedSubs.any (heq key) then
       let (r, s', tr) := run (k (.error (.runtime .dupSub))) t s
       (r, s', .mk fname none args kwargs "setup:RuntimeError" [] :: tr)
+    else if s.failSubs.any (heq key) then
+      let s := { s with failSubs := s.failSubs.filter (fun x => !heq key x) }
+      let (r, s', tr) := run (k (.error (.os .other))) t s
+      (r, s', .mk fname none args kwargs "setup:OSError" [] :: tr)
     else
       let s1 := { s with claimedSubs := key :: s.claimedSubs,
                          invLog := ⟨fname, none, args, kwargs⟩ :: s.invLog }
@@ -195,18 +206,22 @@ def dedup (ps : List Path) : List Path :=
   ps.foldl (fun acc p => if acc.contains p then acc else acc ++ [p]) []
 
 /-- `FileBuilder.build_versioned` as documented -/
-def build (w : World) (cf : Path) (buildName : String) (root : Prog) : ApiOut :=
+def build (w : World) (cf : Path) (buildName : String) (root : Prog)
+    (failFiles : List Path := []) (failSubs : List H := []) (abort : Nat := 0) : ApiOut :=
   let refuse (e : Exc) : ApiOut := { res := .error e, world := w }
   let go (old : Rec) : ApiOut :=
     let fs0 := preClean w.fs cf old
-    let s0 : SpecSt := { fs := fs0, cacheFile := cf, dirSize := w.dirSize, clock := w.clock }
-    match dirsToMake (visible s0) cf cf.dropLast with
+    let s0 : SpecSt := { fs := fs0, cacheFile := cf, dirSize := w.dirSize, clock := w.clock,
+                         failFiles := failFiles, failSubs := failSubs }
+    match (if abort = 1 then .error .other else dirsToMake (visible s0) cf cf.dropLast) with
     | .error e =>
       { res := .error (.os e),
         world := { w with fs := mkdirs w.fs (old.createdDirs.mergeSort (fun a b => a.length ≤ b.length)) } }
     | .ok cds =>
       let s1 := { s0 with fs := mkdirs s0.fs cds }
-      let (r, s2, tr) := run root none s1
+      let (r0, s2, tr) := run root none s1
+      -- abort = 2: the function succeeded but writing the cache file fails (injected fault)
+      let r : CallRes := match r0 with | .ok v => if abort = 2 then .error (.os .other) else .ok v | e => e
       match r with
       | .error e =>
         -- roll back: the pre-build tree; the directories the previous build recorded as created
